@@ -27,6 +27,18 @@
                   WriteTo: called, wb (was the writer called, with which bytes),
                   ReadFrom: done, after, minp (reader driven to its end, calls after its end,
                   smallest slice it was offered; the reader uses the rest of the slice as scratch space),
+                  pl (the lengths of the slices the first Read calls were offered),
+                  collaborators with a plan per call (Buffer.tla, COLLABORATORS):
+                    WriteTo: wl (the length of EVERY Write call the writer received), nest (the calls
+                      the writer made on the buffer from inside its first Write, each a record like a
+                      line of this log: op, arguments, avail / cap before, cap2 after, pan, err, rn,
+                      rm, rb, len), wn / werr its answer
+                    ReadFrom: calls = one record per Read call received: pl (len(p)), off (absolute read
+                      point on entry: Cap-Available-Len), c (bytes stored), fin (more/eof/err/neg),
+                      order (pre: stored before calling back / post), nest (as above); planned (number
+                      of calls the reader's plan has up to its final answer)
+                  A line the model declares undefined for bytes.Buffer (`und`) ends the checking of
+                  that trace without a verdict; it is listed in `skip`.
                   hv (optional): the CURRENT contents of every slice the caller keeps, oldest first,
                   read after the call.  Compared with `held` (Buffer.tla): the model decides which
                   results are still kept and must be intact (owned copies for ever, aliases until the
@@ -42,32 +54,26 @@ EXTENDS Buffer, Json, SequencesExt
 
 CONSTANT TraceFile
 
-VARIABLES i, failed, bad, hold
+VARIABLES i, failed, bad, hold, skip
 
 TLog == ndJsonDeserialize(TraceFile)
 
 Has(r, f) == f \in DOMAIN r
 
-\* the model's outcome for one logged call
-Do(s, e) ==
-    CASE e.op \in {"Write", "WriteString"} -> OpWrite(s, e.b)
-      [] e.op = "WriteByte" -> OpWriteByte(s, e.n)
-      [] e.op = "WriteRune" -> OpWriteRune(s, e.n)
-      [] e.op = "Read" -> OpRead(s, e.n)
-      [] e.op = "Next" -> OpNext(s, e.n)
-      [] e.op = "ReadByte" -> OpReadByte(s)
-      [] e.op = "ReadRune" -> OpReadRune(s)
-      [] e.op = "UnreadByte" -> OpUnreadByte(s)
-      [] e.op = "UnreadRune" -> OpUnreadRune(s)
-      [] e.op \in {"ReadBytes", "ReadString"} -> OpReadSlice(s, e.n)
-      [] e.op = "Truncate" -> OpTruncate(s, e.n)
-      [] e.op = "Reset" -> OpReset(s)
-      [] e.op = "Grow" -> OpGrow(s, e.n, e.avail)
-      [] e.op = "ReadFrom" -> OpReadFrom(s, e.b, e.fin)
-      [] e.op = "WriteTo" -> OpWriteTo(s, e.wn, e.werr)
-      [] e.op = "Len" -> OpLen(s)
-      [] e.op \in {"Bytes", "String"} -> OpContents(s)
-      [] e.op = "NilString" -> OpNilString(s)
+\* the model's outcome for one logged call: [o |-> outcome, und |-> outside the defined domain,
+\* outs |-> outcomes of the calls the collaborator made from inside]
+Plain(o) == RR(o, FALSE, <<>>)
+DoR(s, e) ==
+    CASE e.op = "ReadFrom" -> IF Has(e, "calls") THEN OpReadFromRe(s, e.calls) ELSE Plain(OpReadFrom(s, e.b, e.fin))
+      [] e.op = "WriteTo" -> IF Has(e, "nest") THEN OpWriteToRe(s, e.nest, e.wn, e.werr) ELSE Plain(OpWriteTo(s, e.wn, e.werr))
+      [] e.op = "NilString" -> Plain(OpNilString(s))
+      [] OTHER -> Plain(DoEv(s, e))
+
+\* the calls a collaborator made from inside, in the order of the model's `outs`
+RECURSIVE Flat(_, _)
+Flat(calls, j) == IF j > Len(calls) THEN <<>> ELSE calls[j].nest \o Flat(calls, j + 1)
+NestOf(e) == IF e.op = "ReadFrom" /\ Has(e, "calls") THEN Flat(e.calls, 1)
+             ELSE IF e.op = "WriteTo" /\ Has(e, "nest") THEN e.nest ELSE <<>>
 
 \* which result fields a call has
 HasN(op) == op \in {"Write", "WriteString", "WriteRune", "Read", "ReadByte", "ReadRune", "ReadFrom", "WriteTo", "Len"}
@@ -85,7 +91,20 @@ KnownOp(e) == e.op \in {"Write", "WriteString", "WriteByte", "WriteRune", "Read"
                         "UnreadByte", "UnreadRune", "ReadBytes", "ReadString", "Truncate", "Reset", "Grow",
                         "ReadFrom", "WriteTo", "Len", "Bytes", "String", "NilString"}
 
-Match(s, e, o, H) ==
+\* a call made from inside a collaborator against the model's outcome of it
+NMatch(ne, no) ==
+    /\ ne.pan = no.pan
+    /\ no.pan = NoPanic =>
+         /\ ne.err = no.err
+         /\ HasN(ne.op) => ne.rn = no.n
+         /\ HasM(ne.op) => ne.rm = no.m
+         /\ HasB(ne.op) => ne.rb = no.b
+    /\ ne.len = Len(no.st.data)
+
+Match(s, e, r, H) ==
+    LET o == r.o
+        nest == NestOf(e)
+    IN
     /\ e.pan = o.pan
     /\ Has(e, "hv") => /\ Len(e.hv) = Len(H)
                        /\ \A k \in DOMAIN H : e.hv[k] = H[k].val
@@ -99,43 +118,54 @@ Match(s, e, o, H) ==
     /\ Has(e, "bs") => e.bs = o.st.data
     /\ e.op = "WriteTo" => /\ e.called = WriterCalled(s)
                            /\ e.called => e.wb = s.data
+                           /\ Has(e, "wl") => e.wl = WriterLens(s)          \* exactly one Write, of everything
     /\ e.op = "ReadFrom" => /\ e.done /\ e.after = 0
                             /\ e.minp >= MinRead
+                            /\ Has(e, "pl") => \A k \in DOMAIN e.pl : e.pl[k] >= MinRead
+                            /\ Has(e, "calls") => /\ Len(e.calls) = e.planned
+                                                  /\ \A k \in DOMAIN e.calls : e.calls[k].pl >= MinRead
+    /\ Len(nest) = Len(r.outs)
+    /\ \A k \in DOMAIN nest : NMatch(nest[k], r.outs[k])
 
 Short(b) == IF Len(b) <= 48 THEN b ELSE Take(b, 24) \o <<-1>> \o LastK(b, 24)
 ShortHeld(H) == [k \in DOMAIN H |-> [tag |-> H[k].tag, val |-> Short(H[k].val)]]
-Expect(s, e, o, H) ==
-    ToJson([pan |-> o.pan, err |-> o.err, rn |-> o.n, rm |-> o.m, rb |-> Short(o.b), len |-> Len(o.st.data),
+NShort(no) == [pan |-> no.pan, err |-> no.err, rn |-> no.n, rm |-> no.m, rb |-> Short(no.b), len |-> Len(no.st.data)]
+Expect(s, e, r, H) ==
+    LET o == r.o IN
+    ToJson([nest |-> [k \in DOMAIN r.outs |-> NShort(r.outs[k])], wl |-> WriterLens(s), pan |-> o.pan, err |-> o.err, rn |-> o.n, rm |-> o.m, rb |-> Short(o.b), len |-> Len(o.st.data),
             s |-> Short(o.st.data), lr |-> o.st.lr, prev |-> o.st.prev, held |-> ShortHeld(H),
             before |-> [len |-> Len(s.data), s |-> Short(s.data), lr |-> s.lr, prev |-> s.prev, held |-> ShortHeld(held)]])
 
-TInit == st = Fresh /\ held = <<>> /\ hold = 0 /\ i = 1 /\ failed = FALSE /\ bad = {}
+TInit == st = Fresh /\ held = <<>> /\ hold = 0 /\ i = 1 /\ failed = FALSE /\ bad = {} /\ skip = {}
 
-Reject(txt) == /\ UNCHANGED <<st, held>> /\ failed' = TRUE /\ bad' = bad \cup {[line |-> i, expected |-> txt]}
+Reject(txt) == /\ UNCHANGED <<st, held, skip>> /\ failed' = TRUE /\ bad' = bad \cup {[line |-> i, expected |-> txt]}
+\* outside what bytes.Buffer defines: no verdict on the rest of this trace
+Leave == /\ UNCHANGED <<st, held, bad>> /\ failed' = TRUE /\ skip' = skip \cup {i}
 
 TNext ==
     /\ i <= Len(TLog)
     /\ i' = i + 1
     /\ LET e == TLog[i] IN
-       IF e.op = "New" THEN st' = New(e.b) /\ held' = <<>> /\ hold' = e.hold /\ failed' = FALSE /\ bad' = bad
+       IF e.op = "New" THEN st' = New(e.b) /\ held' = <<>> /\ hold' = e.hold /\ failed' = FALSE /\ bad' = bad /\ skip' = skip
        ELSE /\ hold' = hold
-            /\ IF failed THEN UNCHANGED <<st, held, failed, bad>>
+            /\ IF failed THEN UNCHANGED <<st, held, failed, bad, skip>>
                ELSE IF IsStore(e)
                THEN IF ~Legal(held, e) THEN Reject("store through a slice the caller does not (or may no longer) hold")
-                    ELSE LET o == StoreOut(st, held, e)
+                    ELSE LET r == Plain(StoreOut(st, held, e))
                              H == StoreHeld(held, e)
-                         IN IF Match(st, e, o, H) THEN st' = o.st /\ held' = H /\ UNCHANGED <<failed, bad>>
-                            ELSE Reject(Expect(st, e, o, H))
+                         IN IF Match(st, e, r, H) THEN st' = r.o.st /\ held' = H /\ UNCHANGED <<failed, bad, skip>>
+                            ELSE Reject(Expect(st, e, r, H))
                ELSE IF ~KnownOp(e) THEN Reject("unknown call")
-               ELSE LET o == Do(st, e)
-                        H == HCall(held, e.op, o, ArgOf(e), e.keep, hold)
-                    IN IF Match(st, e, o, H) THEN st' = o.st /\ held' = H /\ UNCHANGED <<failed, bad>>
-                       ELSE Reject(Expect(st, e, o, H))
+               ELSE LET r == DoR(st, e)
+                        H == HCall(held, e.op, r.o, ArgOf(e), e.keep, hold)
+                    IN IF r.und THEN Leave
+                       ELSE IF Match(st, e, r, H) THEN st' = r.o.st /\ held' = H /\ UNCHANGED <<failed, bad, skip>>
+                       ELSE Reject(Expect(st, e, r, H))
 
-TSpec == TInit /\ [][TNext]_<<st, held, hold, i, failed, bad>>
+TSpec == TInit /\ [][TNext]_<<st, held, hold, i, failed, bad, skip>>
 
 \* evaluated in every state; prints the verdict once the whole log is consumed
-Done == i <= Len(TLog) \/ PrintT("@@bad " \o ToJson(SetToSeq(bad))) \/ TRUE
+Done == i <= Len(TLog) \/ (PrintT("@@bad " \o ToJson(SetToSeq(bad))) /\ PrintT("@@skip " \o ToJson(SetToSeq(skip)))) \/ TRUE
 
 TTypeOK == IsByteSeq(st.prev) /\ st.lr \in -1..4
 TPrevShape == PrevShape
